@@ -1272,6 +1272,16 @@ func (ctx *RenderContext) getAttribute(obj interface{}, attr string) (interface{
 		objValue = objValue.Elem()
 	}
 
+	// Maps with string keys of any Go type (map[string]string, map[string]int,
+	// named string keys ...) answer like map[string]interface{} does above
+	if objValue.Kind() == reflect.Map && objValue.Type().Key().Kind() == reflect.String {
+		value := objValue.MapIndex(reflect.ValueOf(attr).Convert(objValue.Type().Key()))
+		if value.IsValid() && value.CanInterface() {
+			return value.Interface(), nil
+		}
+		return nil, nil
+	}
+
 	// Only use caching for struct types
 	if objValue.Kind() != reflect.Struct {
 		// Instead of returning an error for non-struct types, return nil
